@@ -15,6 +15,8 @@ import (
 	"context"
 	"encoding/json"
 	"fmt"
+	"github.com/thushan/olla/internal/zz_verif/anth"
+	"github.com/thushan/olla/internal/zz_verif/stack"
 	"io"
 	"net/http/httptest"
 	"os"
@@ -1265,6 +1267,87 @@ func lineFromJSON(m map[string]any) Line {
 	return l
 }
 
+// e2e: a completion of `size` bytes of text through the production stack on the Anthropic translation route
+// (translators.anthropic.max_message_size = limit, which bounds REQUESTS), buffered or streamed. The client must
+// hold a well-formed Anthropic message whose text is the backend's.
+func e2e(engine string, size int, stream bool, limit int64) map[string]any {
+	text := strings.Repeat("lorem ipsum dolor sit amet, ", size/28+1)[:size]
+	b := stack.NewBackend("B")
+	defer b.Close()
+	b.SetScript(func(_ int, sn *stack.Seen) stack.Behaviour {
+		if anth.WantsStream(sn.Body) {
+			var sb strings.Builder
+			chunk := func(v map[string]any) { j, _ := json.Marshal(v); sb.WriteString("data: " + string(j) + "\n\n") }
+			for off := 0; off < len(text); off += 4096 {
+				end := off + 4096
+				if end > len(text) {
+					end = len(text)
+				}
+				chunk(map[string]any{"id": "c1", "object": "chat.completion.chunk", "model": "m1", "choices": []any{map[string]any{"index": 0, "delta": map[string]any{"content": text[off:end]}}}})
+			}
+			chunk(map[string]any{"id": "c1", "object": "chat.completion.chunk", "model": "m1", "choices": []any{map[string]any{"index": 0, "delta": map[string]any{}, "finish_reason": "stop"}}})
+			sb.WriteString("data: [DONE]\n\n")
+			return stack.Behaviour{Kind: "ok", Status: 200, Headers: [][2]string{{"Content-Type", "text/event-stream"}}, Body: []byte(sb.String()), Chunked: true}
+		}
+		j, _ := json.Marshal(map[string]any{"id": "c1", "object": "chat.completion", "created": 1, "model": "m1",
+			"choices": []any{map[string]any{"index": 0, "message": map[string]any{"role": "assistant", "content": text}, "finish_reason": "stop"}},
+			"usage":   map[string]any{"prompt_tokens": 3, "completion_tokens": 7, "total_tokens": 10}})
+		return stack.Behaviour{Kind: "ok", Status: 200, Headers: [][2]string{{"Content-Type", "application/json"}}, Body: j}
+	})
+	s, err := stack.Start(stack.Opts{Engine: engine, Balancer: "priority", EPs: []stack.EP{{Name: "B", Type: "openai", Priority: 100, Backend: b}},
+		Mutate: func(cfg *config.Config) {
+			cfg.Translators.Anthropic.Enabled = true
+			cfg.Translators.Anthropic.MaxMessageSize = limit
+		}})
+	if err != nil {
+		return map[string]any{"start_err": err.Error()}
+	}
+	defer s.Stop()
+	if err := anth.Register(s, b, []string{anth.Model}); err != nil {
+		return map[string]any{"start_err": "register: " + err.Error()}
+	}
+	deadline := time.Now().Add(3 * time.Second)
+	for !anth.Routable(s, []*stack.Backend{b}, anth.Model) && time.Now().Before(deadline) {
+		time.Sleep(2 * time.Millisecond)
+	}
+	r := stack.Do(s.Addr, stack.Request("POST", "/olla/anthropic/v1/messages", s.Addr, [][2]string{{"Content-Type", "application/json"}, {"anthropic-version", "2023-06-01"}}, anth.AnthropicBody(anth.Model, stream, "e2e"), false), 8*time.Second)
+	got := ""
+	if stream {
+		for _, line := range strings.Split(string(r.Body), "\n") {
+			if strings.HasPrefix(line, "data: ") {
+				var ev struct {
+					Type  string `json:"type"`
+					Delta struct {
+						Text string `json:"text"`
+					} `json:"delta"`
+				}
+				if json.Unmarshal([]byte(line[6:]), &ev) == nil && ev.Type == "content_block_delta" {
+					got += ev.Delta.Text
+				}
+			}
+		}
+	} else {
+		var msg struct {
+			Type    string `json:"type"`
+			Content []struct {
+				Type string `json:"type"`
+				Text string `json:"text"`
+			} `json:"content"`
+		}
+		if json.Unmarshal(r.Body, &msg) == nil && msg.Type == "message" {
+			for _, c := range msg.Content {
+				got += c.Text
+			}
+		}
+	}
+	head := string(r.Body)
+	if len(head) > 160 {
+		head = head[:160]
+	}
+	return map[string]any{"status": r.Status, "err": r.Err, "text_len": len(got), "text_equal": got == text, "want_len": len(text), "head": head,
+		"complete": !stream || strings.Contains(string(r.Body), "event: message_stop")}
+}
+
 func main() {
 	tier := vlib.Tier()
 	e := &env{c: vlib.OpenCases("cases.jsonl"), r: vlib.NewRng(vlib.Seed()).Fork(), thorough: tier == "thorough",
@@ -1427,6 +1510,15 @@ func main() {
 		e.c.Count("buffered.bad-shape")
 	}
 
+	// end to end through the production stack: completions smaller and larger than max_message_size (a bound on requests)
+	for _, engine := range []string{"sherpa", "olla"} {
+		for _, stream := range []bool{false, true} {
+			for _, sz := range []int{900, 150 << 10, 700 << 10} {
+				e.c.Emit(map[string]any{"kind": "e2e", "engine": engine, "stream": stream, "size": sz, "limit": 64 << 10, "impl": e2e(engine, sz, stream, 64<<10)})
+				e.c.Count("e2e")
+			}
+		}
+	}
 	e.c.Close(map[string]any{"exhaustive": false,
 		"exhaustive_note": "the input space is infinite; every hand-written odd JSON shape and every ignorable line kind is run once on its own (exhaustive over those two finite lists), everything else is sampled",
 		"chunkings":       "0 whole, 1 one byte per Read, 2 one rune per Read, 3 random 1..23 byte reads, 4 reads split inside every id/name/arguments/content value and after every newline, 5 data+EOF in one Read; each stream is run under 3 of them (all 6 when small or in the thorough tier) and the outputs must be identical"})
